@@ -451,7 +451,8 @@ func (f *frame) loadNoMem(addr *E, typ types.Type) *E {
 	case "faddr":
 		// fields of a fresh local struct start as zero
 		root := addr.Args[0]
-		if root.Op == "alloc" && strings.HasSuffix(root.Aux, "/local") || root.Op == "new" {
+		if root.Op == "alloc" || root.Op == "new" {
+			// a field of an object allocated by this activation that was never stored: zero value
 			if typ != nil {
 				return f.zero(typ)
 			}
